@@ -44,6 +44,8 @@ NormVal(v) ==
     ELSE IF v.t = "enumtype" THEN EnumTypeV(v.c, RangeOf(v.lits))
     ELSE v
 GOf(M) == [vals |-> [n \in DOMAIN M.vals |-> NormVal(M.vals[n])], funcs |-> M.funcs]
+\* for models defined in TLA+ (constant sets are sets already)
+GNative(M) == [vals |-> M.vals, funcs |-> M.funcs]
 
 \* the owners, as a sequence of [path, kind, name, val]
 RECURSIVE Owners(_, _, _, _)
@@ -60,16 +62,21 @@ Owners(M, v, ty, path) ==
 InvsOfOwner(M, o) == IF o.kind = "class" THEN AllInvsOfClass(M, o.name) ELSE AllInvsOfCPrim(M, o.name)
 
 \* every (owner, invariant) evaluation of an instance
-Evaluations(M, inst) ==
+EvaluationsG(M, inst, G) ==
     LET os == Owners(M, inst, [t |-> "inst", c |-> inst.c], "")
-        G == GOf(M)
     IN  Flatten([k \in 1..Len(os) |->
                     LET invs == InvsOfOwner(M, os[k])
                     IN  [j \in 1..Len(invs) |-> [path |-> os[k].path, d |-> invs[j].d, e |-> invs[j].e, owner |-> os[k].kind,
                                                  inherited |-> invs[j].inherited, r |-> Eval(invs[j].e, [self |-> os[k].val], G)]]], 1)
 
+Evaluations(M, inst) == EvaluationsG(M, inst, GOf(M))
+
 \* an invariant "is false": its value is falsy (for the booleans the property speaks of: FALSE)
 IsFalse(r) == ~IsErr(r) /\ ~Truthy(r)
+
+\* the declarative expectation
+ExpectedG(M, inst, G) == LET evs == EvaluationsG(M, inst, G) IN {<<evs[k].path, evs[k].d>> : k \in {j \in 1..Len(evs) : IsFalse(evs[j].r)}}
+MustRaiseG(M, inst, G) == LET evs == EvaluationsG(M, inst, G) IN \E k \in 1..Len(evs) : IsErr(evs[k].r)
 
 \* a structural fingerprint of an invariant, for the keys of findings
 RECURSIVE HasFilter(_)
